@@ -2,10 +2,14 @@ package seccomp
 
 import (
 	"bufio"
+	"bytes"
+	"crypto/sha256"
+	"encoding/binary"
 	"errors"
 	"fmt"
 	"io"
 	"math/bits"
+	"path/filepath"
 	"sort"
 	"strconv"
 	"strings"
@@ -106,4 +110,22 @@ func H_SelfLib() {
 	vObsBool("wrapped_is_eof", errors.Is(wrapped, io.EOF))
 	vObsBool("wrapped_is_toolong", errors.Is(wrapped, bufio.ErrTooLong))
 	vObsBool("wrapped_eq_eof", wrapped == io.EOF)
+
+	// models added later: binary.Write into a Buffer, a one-shot digest of concrete bytes, call-through of
+	// a variadic function, delete on a map
+	var bb bytes.Buffer
+	binary.Write(&bb, binary.LittleEndian, []uint32{uint32(w), uint32(w >> 32)})
+	binary.Write(&bb, binary.BigEndian, struct {
+		A uint16
+		B uint8
+		C uint8
+	}{uint16(w), 7, uint8(w >> 8)})
+	d := sha256.Sum256(bb.Bytes())
+	vObs("buflen", uint64(bb.Len()))
+	vObs("digest", uint64(d[0])|uint64(d[1])<<8|uint64(d[31])<<16)
+	vObs("joined", vSelfHash(3, filepath.Join("a", s, "c")))
+	dm := map[int]string{1: "x", 2: "y", int(w % 5): "z"}
+	delete(dm, 2)
+	delete(dm, 9)
+	vObs("maplen", uint64(len(dm)))
 }
